@@ -144,6 +144,12 @@ func tagsOf(steps []step, extra ...string) string {
 		case kInterleaved:
 			set["interleaved"] = true
 			nt = true
+		case kBurst:
+			set["burst"] = true
+			nt = true
+		case kParallel:
+			set["parallel"] = true
+			nt = true
 		case kNTS:
 			nt = true
 			if s.a == 0 || s.a == 8 {
@@ -345,6 +351,46 @@ func consts() {
 
 // ---- histories ----
 
+func genParallel(r *lib.Rng) []byte {
+	var data []byte
+	nsnd := 2 + r.Intn(7)
+	first := r.Intn(nSocks)
+	for i := 0; i < nsnd; i++ {
+		snd := (first + i) % nSocks
+		for j := 1 + r.Intn(4); j > 0; j-- {
+			var p []byte
+			if r.Intn(2) == 0 {
+				p = header(r, lib.Pick(r, validFirst...), 3+r.Intn(2))
+			} else {
+				p, _ = genPayload(r)
+			}
+			data = append(data, byte(snd), byte(len(p)>>8), byte(len(p)))
+			data = append(data, p...)
+		}
+	}
+	return data
+}
+
+func genBurst(r *lib.Rng) []byte {
+	var data []byte
+	n := 2 + r.Intn(6)
+	for i := 0; i < n; i++ {
+		if r.Intn(6) == 0 {
+			data = append(data, 0xff, 0xff, byte(lib.Pick(r, 0, 0, 1, 2, 3, 5, 8, 9)), firstByte(r))
+			continue
+		}
+		var p []byte
+		if r.Intn(3) == 0 {
+			p = header(r, lib.Pick(r, validFirst...), 3+r.Intn(2))
+		} else {
+			p, _ = genPayload(r)
+		}
+		data = append(data, byte(len(p)>>8), byte(len(p)))
+		data = append(data, p...)
+	}
+	return data
+}
+
 func genHistory(r *lib.Rng, n int, withHdr bool) []step {
 	var steps []step
 	for i := 0; i < n; i++ {
@@ -357,6 +403,8 @@ func genHistory(r *lib.Rng, n int, withHdr bool) []step {
 			s.k, s.a = kInterleaved, int64(r.Intn(i))
 			s.data = header(r, lib.Pick(r, validFirst...), 4)
 			s.sender = steps[s.a].sender
+		case k == 9 && !withHdr:
+			s.k, s.data = kBurst, genBurst(r)
 		case k < 5:
 			s.k, s.a = kNTS, int64(lib.Pick(r, 0, 0, 0, 0, 1, 2, 3, 4, 5, 6, 7, 8, 9, 10, 11))
 			s.data = []byte{firstByte(r)}
@@ -485,7 +533,7 @@ func child(a lib.Args) {
 	// 4. NTS: real requests, intact and damaged, with valid and invalid first bytes
 	nNTS := 6
 	if thorough {
-		nNTS = 20
+		nNTS = 40
 	}
 	for rep := 0; rep < nNTS && !d.lost; rep++ {
 		for v := int64(0); v <= 11; v++ {
@@ -498,11 +546,22 @@ func child(a lib.Args) {
 	// 5. histories
 	nHist := 1000
 	if thorough {
-		nHist = 12000
+		nHist = 30000
 	}
 	for i := 0; i < nHist && !d.lost; i++ {
 		steps := genHistory(r, 2+r.Intn(7), false)
 		d.runIP(tagsOf(steps, "history"), steps, r)
+	}
+
+	nBurst := 300
+	if thorough {
+		nBurst = 12000
+	}
+	for i := 0; i < nBurst && !d.lost; i++ {
+		steps := []step{{sender: r.Intn(nSocks), k: kBurst, data: genBurst(r)}}
+		d.runIP(tagsOf(steps, "bursts"), steps, r)
+		steps = []step{{sender: 0, k: kParallel, data: genParallel(r)}}
+		d.runIP(tagsOf(steps, "bursts"), steps, r)
 	}
 
 	// 6. SCION listener: all first bytes x lengths, over mixed headers
@@ -527,7 +586,7 @@ func child(a lib.Args) {
 	// valid requests over every combination of address families and path kinds
 	nAddr := 600
 	if thorough {
-		nAddr = 6000
+		nAddr = 15000
 	}
 	for i := 0; i < nAddr && !d.lost; i++ {
 		oneS(r.Intn(nSocks), header(r, lib.Pick(r, validFirst...), 3+r.Intn(2)), genHdr(r), "addressing")
@@ -542,7 +601,7 @@ func child(a lib.Args) {
 	}
 	nHistS := 400
 	if thorough {
-		nHistS = 5000
+		nHistS = 12000
 	}
 	for i := 0; i < nHistS && !d.lost; i++ {
 		steps := genHistory(r, 2+r.Intn(6), true)
